@@ -448,6 +448,20 @@ Definition fl_mul2 (f : fl) : fl :=
   | _ => f
   end.
 
+(* x + 1.0 in binary64, exactly: the real sum m*2^e + 1 rounded to 53 bits, ties to even (it cannot overflow, and a
+   result of magnitude >= 2^-53 is never subnormal; -1.0 + 1 is +0.0) *)
+Definition fl_add1 (f : fl) : fl :=
+  match f with
+  | FNaN | FInf _ => f
+  | FZero _ => FFin 1 0
+  | FFin m e =>
+      let e' := Z.min e 0 in
+      let a := (m * 2 ^ (e - e') + 2 ^ (- e'))%Z in
+      if (a =? 0)%Z then FZero false else
+      let '(q, s) := round53 (Z.abs a) in
+      fl_norm (if (a <? 0)%Z then (- q)%Z else q) (s + e')
+  end.
+
 Definition upper_cp (c : N) : N := if (97 <=? c)%N && (c <=? 122)%N then (c - 32)%N else c.
 
 Definition py_mul2 (v : val) : result val :=          (* Python x * 2 on an object array *)
@@ -462,6 +476,7 @@ Definition py_add1 (v : val) : result val :=
   match v with
   | VBool b => Ok (VInt (if b then 2 else 1))
   | VInt z => Ok (VInt (z + 1))
+  | VFloat f => Ok (VFloat (fl_add1 f))
   | _ => Raise Unmodelled
   end.
 
@@ -482,7 +497,7 @@ Definition apply_fn (f : option fn) (dv : dtype) (vals : list val) : result (dty
       match dv with
       | DBool | DInt => r <- mapM (fun v => z <- int_of v ;; Ok (VInt (wrap64 (z + 1)))) vals ;; Ok (DInt, r)
       | DObj => r <- mapM py_add1 vals ;; Ok (DObj, r)
-      | DFloat => match vals with [] => Ok (DFloat, []) | _ => Raise Unmodelled end
+      | DFloat => r <- mapM (fun v => match v with VFloat x => Ok (VFloat (fl_add1 x)) | _ => Raise Unmodelled end) vals ;; Ok (DFloat, r)
       | _ => Raise Unmodelled
       end
   | Some Upper =>
@@ -718,3 +733,88 @@ Definition c09_check_sparse_decl (c : decl * option val * list val * option fn *
   let '(dc, a, l, f, o) := c in res_eqb (sparse_col_np dc a l f) o.
 Definition c09_show_sparse_decl (c : decl * option val * list val * option fn * result obs) :=
   let '(dc, a, l, f, o) := c in sparse_col_np dc a l f.
+
+(* ------------------------------------------------------------------ *)
+(* Part 6: scripts on ONE column object                                 *)
+(* ------------------------------------------------------------------ *)
+(* The object's state is its stored form (exactly the intermediate values of rle_np ... func_np).  Steps:
+   expand; apply an element-wise function to the stored values (in place or by rebinding: the same new
+   stored values); replace the object by a copy of it (copy.copy / copy.deepcopy / pickle round trip) or
+   copy it and go on with the original: a copy is an equal, independent object, so the state is unchanged;
+   change [length]; read an EARLIER expansion again: an expansion is a value the caller owns - it is what
+   it was when it was returned, whatever happened to the column since. *)
+Inductive stored :=
+| StRle (dv : dtype) (sv : list val) (ls : list nat)
+| StDict (dv : dtype) (u : list val) (codes : list nat)
+| StSparse (dv : dtype) (vals : list val) (idx : list nat) (n : nat) (d : val)
+| StConst (dv : dtype) (sv : list val) (n : Z)
+| StFunc (b : binding) (cfg : list val) (n : Z).
+
+Inductive colspec :=
+| CRle (l : list val) | CDict (l : list val) | CSparse (l : list val) (d : val)
+| CConst (v : val) (n : Z) | CFunc (b : binding) (cfg : list val) (n : Z).
+
+Definition st_build (c : colspec) : result stored :=
+  match c with
+  | CRle l => let '(rv, ls) := rle_encode py_eqb l in '(dv, sv) <- np_array rv ;; Ok (StRle dv sv ls)
+  | CDict l => '(dv, arr) <- np_array l ;;
+               if dtype_eqb dv DObj && (2 <=? length arr) then Raise TypeError
+               else let '(u, codes) := dict_encode dict_eqb dict_leb arr in Ok (StDict dv u codes)
+  | CSparse l d => '(dv, arr) <- np_array l ;; _ <- np_cmp_guard dv d ;;
+                   let '(idx, vals, n) := sparse_encode (np_neqb dv) arr d in Ok (StSparse dv vals idx n d)
+  | CConst v n => '(dv, sv) <- np_array (const_encode v) ;; Ok (StConst dv sv n)
+  | CFunc b cfg n => Ok (StFunc b cfg n)
+  end.
+
+Definition st_expand (s : stored) : result (list val * dtype) :=
+  match s with
+  | StRle dv sv ls => '(odt, out) <- np_array (rle_decode sv ls) ;; Ok (out, odt)
+  | StDict dv u codes => match gather u codes with None => Raise IndexError | Some out => Ok (out, dv) end
+  | StSparse dv vals idx n d =>
+      dt <- mat_dtype dv d ;; fill <- np_cast dt d ;; vals' <- mapM (np_cast dt) vals ;;
+      Ok (sparse_materialize (idx, vals', n) fill, dt)
+  | StConst dv sv n => if (n <? 0)%Z then Raise ValueError
+                       else match const_materialize sv (Z.to_nat n) with None => Raise ValueError | Some out => Ok (out, dv) end
+  | StFunc b cfg n => mat_only (func_np b cfg n)
+  end.
+
+Definition st_fn (f : fn) (s : stored) : result stored :=
+  match s with
+  | StRle dv sv ls => '(dv', sv') <- apply_fn (Some f) dv sv ;; Ok (StRle dv' sv' ls)
+  | StDict dv u codes => '(dv', u') <- apply_fn (Some f) dv u ;; Ok (StDict dv' u' codes)
+  | StSparse dv vals idx n d => '(dv', vals') <- apply_fn (Some f) dv vals ;; Ok (StSparse dv' vals' idx n d)
+  | StConst dv sv n => '(dv', sv') <- apply_fn (Some f) dv sv ;; Ok (StConst dv' sv' n)
+  | StFunc _ _ _ => Raise Unmodelled
+  end.
+
+Definition st_len (n : Z) (s : stored) : stored :=
+  match s with StConst dv sv _ => StConst dv sv n | StFunc b cfg _ => StFunc b cfg n | _ => s end.
+
+Inductive kstep := KMat | KFn (f : fn) | KCopy | KLen (n : Z) | KReread (k : nat).
+
+Fixpoint script_run (s : stored) (hist : list (result (list val * dtype))) (steps : list kstep)
+  : list (result (list val * dtype)) :=
+  match steps with
+  | [] => []
+  | KMat :: r => match st_expand s with
+                 | Raise e => [Raise e]
+                 | Ok o => Ok o :: script_run s (hist ++ [Ok o]) r
+                 end
+  | KFn f :: r => match st_fn f s with Raise e => [Raise e] | Ok s' => script_run s' hist r end
+  | KCopy :: r => script_run s hist r
+  | KLen n :: r => script_run (st_len n s) hist r
+  | KReread k :: r => nth k hist (Raise Unmodelled) :: script_run s hist r
+  end.
+
+Definition script_np (c : colspec) (steps : list kstep) : list (result (list val * dtype)) :=
+  match st_build c with Raise e => [Raise e] | Ok s => script_run s [] steps end.
+
+(* the single-step shape: build, (function on the stored values,) expand *)
+Definition one_fn (f : option fn) : list kstep := match f with Some g => [KFn g; KMat] | None => [KMat] end.
+
+Definition not_copy (k : kstep) : bool := match k with KCopy => false | _ => true end.
+
+Definition c09_check_script (c : colspec * list kstep * list (result (list val * dtype))) : bool :=
+  let '(spec, steps, o) := c in list_eqb res2_eqb (script_np spec steps) o.
+Definition c09_show_script (c : colspec * list kstep * list (result (list val * dtype))) :=
+  let '(spec, steps, o) := c in script_np spec steps.
